@@ -32,7 +32,11 @@ Code-shaped model of `src/Watchdog.cc`, `Watchdog_inlines.hh`, `Time_inlines.hh`
   body is atomic (the signal is blocked while its handler runs) and takes no time.
 * Ghost state: real time `now`, the instant `epoch` at which `time_so_far` was last reset, the
   event log (births, firings, destructions, timer calls), `dirty` (time has passed inside a
-  critical section), `badArg` (a negative delay was passed to a constructor).
+  critical section).
+* The constructors reject `csecs <= 0` with `invalid_argument` before anything is changed.  The
+  failure branches of `set_timer` (null interval: "PPL internal error"; `setitimer` failing with
+  `EINVAL`) are kept as in the code; they are proved unreachable in runs without a deferred
+  signal (`C19.no_internal_error_partial`).
 -/
 namespace PPLV.Watchdog
 
@@ -108,7 +112,7 @@ deriving Repr, DecidableEq, Inhabited
 
 inductive Event
   | born (id : Nat) (t : Int) (cs : Int)          -- constructor entered, delay accepted
-  | rejected (id : Nat) (cs : Int)                -- `invalid_argument` (csecs == 0)
+  | rejected (id : Nat) (cs : Int)                -- `invalid_argument` (csecs <= 0)
   | threw (id : Nat)                              -- `runtime_error` out of the constructor
   | constructed (id : Nat) (t : Int)              -- constructor returned
   | fired (id : Nat) (t : Int) (b : Int) (cs : Int) -- handler action ran at real time `t`
@@ -156,7 +160,6 @@ structure St where
   epoch : Int := 0
   log : List Event := []               -- newest first
   dirty : Bool := false
-  badArg : Bool := false
   err : Bool := false
 deriving Repr, Inhabited
 
@@ -230,10 +233,9 @@ def getTimer (σ : St) : Time := Time.mk2 (σ.remaining / 1000000) (σ.remaining
     test of `alarm_clock_running` -/
 def create (σ : St) (id : Nat) (cs : Int) : St :=
   if σ.pc ≠ .idle ∨ id ∈ σ.used then σ
-  else if cs = 0 then { σ with used := id :: σ.used, log := .rejected id cs :: σ.log }
+  else if cs ≤ 0 then { σ with used := id :: σ.used, log := .rejected id cs :: σ.log }
   else
-    { σ with used := id :: σ.used, inCrit := true, badArg := σ.badArg || decide (cs < 0),
-             log := .born id σ.now cs :: σ.log,
+    { σ with used := id :: σ.used, inCrit := true, log := .born id σ.now cs :: σ.log,
              pc := if σ.running then .b1 id cs σ.now (Time.ofCs cs)
                    else .a1 id cs σ.now (Time.ofCs cs) }
 
@@ -412,9 +414,9 @@ def promptB (σ : St) : Bool :=
 def W64 : Nat := 18446744073709551616      -- 2^64
 def H63 : Nat := 9223372036854775808       -- 2^63
 
-/-- `Weightwatch_Traits::less_than(a, b)`: `b - a < 2^63` in `unsigned long long` arithmetic.
-    (`a`, `b` < 2^64.) -/
-def wLess (a b : Nat) : Bool := decide ((b + W64 - a % W64) % W64 < H63)
+/-- `Weightwatch_Traits::less_than(a, b)`: `a != b && b - a < 2^63` in `unsigned long long`
+    arithmetic.  (`a`, `b` < 2^64.) -/
+def wLess (a b : Nat) : Bool := decide (a ≠ b) && decide ((b + W64 - a % W64) % W64 < H63)
 
 structure WEv where
   thr : Nat            -- the stored threshold (mod 2^64)
